@@ -21,6 +21,16 @@ def gen_matrix(rng, U, kind):
             for b in range(a + 1, U):
                 M[a][b] = M[b][a] = float(next(it))
         return M
+    if kind in ("near", "tinyscale"):
+        # nearly tied weights (differences ~1e-7 relative) / dissimilarities that are tiny in absolute terms
+        base = rng.choice([1.0, 3.0]) if kind == "near" else 1e-9
+        step = 1e-7 if kind == "near" else 1e-10
+        vals = rng.sample(range(0, 6 * U * U + 10), U * U)
+        it = iter(vals)
+        for a in range(U):
+            for b in range(a + 1, U):
+                M[a][b] = M[b][a] = base + step * next(it) * (1 if rng.random() < 0.8 else 1000)
+        return M
     alpha = {"a1": [3], "a2": [1, 2], "a3": [1, 2, 3], "an": list(range(1, U + 1)),
              "zero": [0, 1, 2], "asym": [1, 2, 3, 4, 5]}[kind]
     for a in range(U):
@@ -56,7 +66,8 @@ def run(rng, tier, res=None, want=("prim", "fit", "semi")):
     nmax = 12 if tier == "quick" else 22
     lines, obs, metas = [], [], []
 
-    kinds = ["a1", "a2", "a2", "a3", "a3", "an", "an", "distinct", "distinct", "real", "real", "zero", "asym"]
+    kinds = ["a1", "a2", "a2", "a3", "a3", "an", "an", "distinct", "distinct", "real", "real", "zero", "asym",
+             "near", "near", "tinyscale"]
 
     def viol(prop, msgs, meta):
         for m in msgs[:3]:
@@ -167,8 +178,21 @@ def run(rng, tier, res=None, want=("prim", "fit", "semi")):
         ob = f"{fobs} | 1 | {ints(preds)} | {ints(rel)}"
         lines.append(line); obs.append(ob)
         meta = {"stream": "semi" if semi else "fit", "nLab": nLab, "nU": nU, "kind": kind, "labels": lab,
-                "I": I, "Iq": Iq, "M": M.tolist()}
+                "I": I, "Iq": Iq, "M": M.tolist(), "caseid": f"fit{case}", "tier": "A"}
         metas.append(meta)
+        # prediction pass modelled on the IMPLEMENTATION's fitted forest (independent of how it was fitted)
+        if nq:
+            pline = (f"predict {n} {ints(enc(c) for c in cost)} {ints(plabel)} {ints(pred)} {len(order)} {ints(order)} "
+                     f"{nq} {ints(v for r in dm for v in r)}")
+            lines.append(pline); obs.append(f"{ints(preds)} | {ints(rel)}")
+            metas.append({"stream": "predict", "caseid": f"fit{case}", "labels": lab, "I": I, "Iq": Iq, "M": M.tolist()})
+        # tier B: replay the real conquest order through the relational semantics (lawful-run acceptance)
+        if len(set(lab)) >= 2:
+            lline = (f"lawfit {n} {TOP} {ints(1 if x else 0 for x in proto)} {ints(lab_all)} {ints(v for r in w for v in r)} "
+                     f"{ints([-1] * n)} {ints([0] * n)} {len(order)} {ints(order)}")
+            lob = f"lawful 1 | {ints(enc(c) for c in cost)} | {ints(pred)} | {ints(plabel)}"
+            lines.append(lline); obs.append(lob)
+            metas.append({"stream": "lawfit", "caseid": f"fit{case}", "tier": "B"})
         res.add_case(line, nontrivial=(n >= 3 and len(set(lab)) >= 2))
         res.hit(("semi_" if semi else "fit_") + kind)
         if case < 2:
